@@ -86,6 +86,14 @@ func regStruct[T any, P deepCopier[T]]() *entry {
 			P(in.(*T)).DeepCopyInto(out)
 			return out
 		}},
+		copyOp{name: "DeepCopyInto(target-is-a-shallow-copy-of-the-original)", call: func(in any, _ any) any {
+			// c := *v; v.DeepCopyInto(&c): a target that starts out sharing everything with the original
+			// (an implementation that recycles what the target already holds would keep the sharing)
+			out := new(T)
+			*out = *(in.(*T))
+			P(in.(*T)).DeepCopyInto(out)
+			return out
+		}},
 		copyOp{name: "DeepCopyInto", useDirty: true, call: func(in any, dirty any) any {
 			out := dirty.(*T)
 			P(in.(*T)).DeepCopyInto(out)
